@@ -174,6 +174,41 @@ def r4(ctx):
         ctx.ok(rule, "write_number#cascade", detail)
 
 
+def r5(ctx):
+    import re as _re
+    rule = "C18.R5"
+    ctx.rule(rule, "T6 a package is named from one module: every call of ProtobufDefGenerator::model_to_package in the .proto "
+                   "generator takes the module name and the object identifier from the same object (the model itself for `package`, "
+                   "the import clause for the qualification of an imported type) - a name from one and an OID from the other yields "
+                   "a package nobody declares, and the imported message types of the schema do not resolve")
+    P = ctx.program()
+    n = 0
+    for b in P.lib_bodies("asn1rs_model"):
+        if "generate/protobuf.rs" not in b.file or "::tests::" in b.path:
+            continue
+        O = None
+        for cs in b.calls():
+            if cs.name != "model_to_package":
+                continue
+            O = O or X.Origins(b, P)
+            a = [F.rd(R.positional(x)) for x in O.call_args(cs)]
+            if len(a) != 2:
+                continue
+            n += 1
+
+            def base(t):
+                m = _re.findall(r"(.*)\.(\w+)\)*$", t)
+                return (m[0][0].split("(", 1)[-1] if False else _re.sub(r"^(?:\w+::\w+\()+", "", m[0][0])) if m else t
+            b0, b1 = base(a[0]), base(a[1])
+            detail = {"function": b.path, "name_from": a[0][:160], "oid_from": a[1][:160]}
+            if b0 != b1:
+                ctx.fail(rule, "%s#package-source" % b.name, "%s builds a package from the name of `%s` and the object identifier of `%s`"
+                         % (b.name, b0[-60:], b1[-60:]), cs.loc(), detail)
+            else:
+                ctx.ok(rule, "%s#package-source" % b.name, detail)
+    ctx.floor(rule, n, "C18.R5.calls")
+
+
 def run(ctx):
     with open(os.path.join(VERIF, "tables", "proto3_wire.json")) as fh:
         table = json.load(fh)
@@ -181,3 +216,4 @@ def run(ctx):
     r2(ctx)
     r3(ctx, table, path2)
     r4(ctx)
+    r5(ctx)
